@@ -32,6 +32,7 @@ type c19Op struct {
 	Who      int          `json:"who,omitempty"`
 	Contents []c19Content `json:"contents,omitempty"`
 	Copies   int          `json:"copies,omitempty"`  // identical messages in the one transaction
+	Large    bool         `json:"large,omitempty"`   // some content is larger than 1 KiB
 	NoTx     bool         `json:"no_tx,omitempty"`   // executed outside a signed transaction (e.g. by a passed proposal in the end blocker): empty tx bytes
 	Dt       int64        `json:"dt,omitempty"`      // block: time step (ns)
 	Foreign  int          `json:"foreign,omitempty"` // which other-module operation
@@ -44,15 +45,16 @@ type c19Rec struct {
 }
 
 type c19Machine struct {
-	c     *chain.Case
-	recs  map[string]c19Rec // id -> record
-	order []string
-	raw   map[string][]byte // record store image of the previous step
-	dup   map[string]int    // creator+contents -> count
-	nDup  int
-	nNoTx int
-	nOps  int
-	seq   int
+	c      *chain.Case
+	recs   map[string]c19Rec // id -> record
+	order  []string
+	raw    map[string][]byte // record store image of the previous step
+	dup    map[string]int    // creator+contents -> count
+	nDup   int
+	nNoTx  int
+	nLarge int
+	nOps   int
+	seq    int
 }
 
 func newC19() pbt.Machine[c19Op] {
@@ -70,6 +72,7 @@ func (m *c19Machine) Next(t *rapid.T) c19Op {
 		op := c19Op{Kind: "create", Who: rapid.IntRange(0, 2).Draw(t, "who"), Copies: rapid.SampledFrom([]int{1, 1, 2, 3}).Draw(t, "copies"),
 			NoTx: rapid.IntRange(0, 3).Draw(t, "notx") == 0}
 		n := rapid.IntRange(1, 3).Draw(t, "n")
+		large := false
 		for i := 0; i < n; i++ {
 			// mostly valid, small alphabet so that byte-identical records are common
 			d := rapid.SampledFrom([]string{"d0", "d0", "d1", "QmHash", ""}).Draw(t, "digest")
@@ -82,8 +85,16 @@ func (m *c19Machine) Next(t *rapid.T) c19Op {
 					a = "sha256"
 				}
 			}
-			op.Contents = append(op.Contents, c19Content{d, a, rapid.SampledFrom([]string{"", "ipfs://x"}).Draw(t, "uri"), rapid.SampledFrom([]string{"", "m"}).Draw(t, "meta")})
+			meta := rapid.SampledFrom([]string{"", "m"}).Draw(t, "meta")
+			if rapid.IntRange(0, 4).Draw(t, "big") == 0 {
+				// records whose encoding exceeds one or several KiB (buffer reuse, chunking and the like only show there)
+				n := rapid.SampledFrom([]int{300, 1100, 1100, 2500, 9000}).Draw(t, "metalen")
+				meta = strings.Repeat(rapid.SampledFrom([]string{"x", "y", "zz"}).Draw(t, "fill"), n)[:n]
+				large = true
+			}
+			op.Contents = append(op.Contents, c19Content{d, a, rapid.SampledFrom([]string{"", "ipfs://x"}).Draw(t, "uri"), meta})
 		}
+		op.Large = large
 		return op
 	case k < 8:
 		return c19Op{Kind: "block", Dt: gen.Dt(t, "dt")}
@@ -108,6 +119,9 @@ func (m *c19Machine) Apply(op c19Op) error {
 		msgs := make([]sdk.Msg, 0, op.Copies)
 		for i := 0; i < op.Copies; i++ {
 			msgs = append(msgs, msg)
+		}
+		if op.Large {
+			m.nLarge++
 		}
 		var txBytes []byte // nil = unique bytes per transaction
 		if op.NoTx {
@@ -223,6 +237,9 @@ func (m *c19Machine) Classify() (bool, []string) {
 	}
 	if len(m.order) >= 5 {
 		cl = append(cl, "records>=5")
+	}
+	if m.nLarge >= 2 {
+		cl = append(cl, "large-records>=2")
 	}
 	if m.nNoTx >= 2 {
 		cl = append(cl, "same-tx-hash-in-different-txs")
